@@ -521,6 +521,29 @@ def run_property(prop_id: str, tier: str, seed: int) -> int:
         print("HARNESS-ERROR\n" + harness_errors[0], file=sys.stderr, flush=True)
         return 2
 
+    # optional second engine (coverage-guided fuzzing) run by the main process
+    post = getattr(prop, "post_campaign", None)
+    if post is not None:
+        tolerate = [e.get("bucket_regex") or __import__("re").escape(e["bucket"]) for e in active
+                    if "bucket" in e or "bucket_regex" in e]
+        info = post(tier, seed, tolerate)
+        for k, v in (info.get("evidence") or {}).items():
+            extra[k] = v
+        for case in info.get("cases") or []:
+            try:
+                res = run_case(prop, case, disabled)
+            except CaseTimeout:
+                continue
+            evaluations += res.evaluations
+            cases += 1
+            for f in res.failures:
+                cur = buckets.get(f.bucket)
+                if cur is None:
+                    buckets[f.bucket] = {"count": 1, "size": case_size(case), "case": case,
+                                         "failure": f.as_dict(), "origin": {"kind": "fuzz"}}
+                else:
+                    cur["count"] += 1
+
     # hang confirmation (only where non-termination is part of the property)
     inconclusive = n_timeouts
     if prop.hang_is_violation and timeouts:
